@@ -72,11 +72,13 @@ def chunk_ptr_set (_E : Nat) (c : Chunk) (p : Nat) (s : St) : St × Outcome Unit
     else (s, .bad "store to the finger of a chunk that is not current")
   | [] => (s, .bad "store to the finger of the static empty chunk")
 
+/-- the chunk after the one whose footer address is `f` in a `prev`-linked chain (newest first), else `dflt` -/
+def prevIn (f : Nat) (dflt : Chunk) : List Chunk → Chunk
+  | [] => dflt
+  | h :: rest => if h.footer == f then rest.headD dflt else prevIn f dflt rest
+
 /-- `footer.prev.get()` for a chunk footer `c` of the arena: the next older chunk, or the static empty chunk -/
-def chunk_prev (E : Nat) (s : St) (c : Chunk) : Chunk :=
-  match s.a.chunks with
-  | h :: rest => if h.footer == c.footer then rest.headD (emptyChunk E) else emptyChunk E
-  | [] => emptyChunk E
+def chunk_prev (E : Nat) (s : St) (c : Chunk) : Chunk := prevIn c.footer (emptyChunk E) s.a.chunks
 
 /-- `cur.prev.replace(EMPTY_CHUNK.get())`: cut the chain behind the current chunk and hand back what was
 cut off (the older chunks, newest first).  Only this use is translated: `c` must be the current chunk and the
